@@ -29,7 +29,12 @@ Spec:   ValueMap.tla       declarative requirement: Claims(map, type, v) (exact
         ValueMapHistTrace.tla verdicts on observed histories.
         More regression switches (must FAIL): skip loop behind an open high
         end stops one entry early (LegacySkip); unclaimed entry tested by
-        truthiness with the empty string as Values string (LegacyTruthy).
+        truthiness with the empty string as Values string (LegacyTruthy);
+        integer reader too lenient for a lexeme class of malformed entries
+        (Unicode decimal digits: LegacyUdigit; int() fallback: blanks, '_';
+        trailing line feed = the tree as it is: LegacyNl); _v2b_dict keyed
+        case-insensitively (LegacyNocase); items() read from _v2b_dict = the
+        tree as it is (LegacyItemsDict).
 Binding: arrays enumerated / simulated by TLC and seeded random arrays from the
         DSP0004 grammar are concretised for the 8 integer types (numbers,
         notations, property/method/parameter, scalar/array, mock / WBEMServer /
@@ -42,6 +47,11 @@ Binding: arrays enumerated / simulated by TLC and seeded random arrays from the
         Values string / values_default (VectorsE), and histories simulated by
         TLC replayed on one CIMClass object kept by the caller / handed out by
         a caching connection (for_property / for_method / for_parameter).
+        Malformed entries of every lexeme class (BadClasses) in every shape,
+        alone and next to every other entry (enumerated by TLC); every Values
+        array of n-1..n+1 strings over case variants of one word (VectorsC,
+        enumerated by TLC), tobinary also asked for case variants that are
+        not Values strings.
 """
 import json
 import os
@@ -66,8 +76,24 @@ LEGACY = (
     ("ValueMapImplLegacyTruthy.cfg",
      "unclaimed entry tested by truthiness (empty Values string of the '..' "
      "entry lost)"),
+    ("ValueMapImplLegacyUdigit.cfg",
+     "str.isdigit()/int() fast path in front of the DSP0004 patterns "
+     "(entries written with non-ASCII Unicode decimal digits accepted)"),
+    ("ValueMapImplLegacyIntFallback.cfg",
+     "int() as integer reader (blanks, '_' groups, Unicode digits accepted)"),
+    ("ValueMapImplLegacyNl.cfg",
+     "'$' instead of '\\Z' in the integerValue / range patterns (entry "
+     "followed by a line feed accepted) - the tree as it is"),
+    ("ValueMapImplLegacyNocase.cfg",
+     "_v2b_dict keyed case-insensitively (Values strings differing only in "
+     "lexical case collapse in tobinary() / items())"),
+    ("ValueMapImplLegacyItemsDict.cfg",
+     "items() iterates _v2b_dict (entries with a repeated Values string "
+     "collapse) - the tree as it is"),
 )
-LEGACY_INV = {"ValueMapImplLegacyTruthy.cfg": "ImplEqualsClaimsE"}
+THOROUGH_ONLY = ("ValueMapImplLegacyIntFallback.cfg",)
+LEGACY_INV = {"ValueMapImplLegacyTruthy.cfg": "ImplEqualsClaimsE",
+              "ValueMapImplLegacyNocase.cfg": "ImplEqualsClaimsC"}
 HIST_LEGACY = (
     ("ValueMapHistImplShare.cfg", "HistOK",
      "share_values_list: size reconciliation done in place on the class "
@@ -152,7 +178,50 @@ def with_empty(case, rng):
     return case
 
 
-def gen_cases(ctx, amaps2, amaps_sim, amaps_u):
+CASE_WORDS = ["ok", "Kb", "Enabled", "other", "dmtf Reserved", "bit",
+              "in Test", "välue", "Error", "MB"]
+
+
+def case_family(rng, avoid=()):
+    """Concrete strings for the abstract Values strings of VectorsC
+    (ValueMapImpl.tla): three spellings of one word that differ only in
+    lexical case ('ab', 'AB', 'Ab'), a fourth one that is never a Values
+    string unless it is values_default ('aB'), another word ('cd') and a
+    case variant of it ('Cd')."""
+    while True:
+        w = rng.choice(CASE_WORDS)
+        if rng.random() < 0.3:
+            w = w + "#1"
+        lo, up = w.lower(), w.upper()
+        fam = {"ab": lo, "AB": up, "Ab": up[0] + lo[1:], "aB": lo[0] + up[1:]}
+        if len(set(fam.values())) == 4 and not set(fam.values()) & set(avoid):
+            break
+    o = rng.choice([x for x in CASE_WORDS if x.lower() != w.lower()[:len(x)]])
+    fam["cd"] = o.lower()
+    fam["Cd"] = o.upper()
+    fam["dflt"] = "dflt"
+    return fam
+
+
+def with_casevariants(case, rng):
+    """Sometimes two or more Values strings (and / or values_default) differ
+    only in lexical case."""
+    vals = case["vals"]
+    if not vals or len(vals) < 2 or rng.random() >= 0.12:
+        return case
+    fam = case_family(rng, avoid=vals)
+    names = ["ab", "AB", "Ab"]
+    rng.shuffle(names)
+    pos = rng.sample(range(len(vals)), min(len(vals), rng.randint(2, 3)))
+    for p, nm in zip(pos, names):
+        vals[p] = fam[nm]
+    if case["dflt"] is not None and rng.random() < 0.3:
+        case["dflt"] = fam["aB"]
+    case["queries"] = [fam["aB"], vals[0].swapcase()]
+    return case
+
+
+def gen_cases(ctx, amaps2, amaps_sim, amaps_u, amaps_lex=(), casepats=()):
     quick = ctx.tier == "quick"
     rng = ctx.rng
     cases = []
@@ -183,20 +252,50 @@ def gen_cases(ctx, amaps2, amaps_sim, amaps_u):
         ents = H.concretize_abstract(am, tn, rng)
         cases.append(case_from_ents(ents, tn, rng,
                                     origin="tlc-enum-open-end-next-to-unclaimed"))
+    # (A3) every array (length <= 2, reduced alphabet) with a malformed entry
+    #      of a lexeme class (spec: BadClasses) in any shape (single, closed
+    #      range, open low / high end); equal sizes so that nothing but the
+    #      entry is wrong
+    for idx, am in enumerate(amaps_lex):
+        tn = ("uint8", "sint8", "uint16", rng.choice(H.TYPE_NAMES))[idx % 4]
+        ents = H.concretize_abstract(am, tn, rng)
+        cases.append(case_from_ents(ents, tn, rng, shape=(len(ents), None),
+                                    origin="tlc-enum-malformed-lexeme"))
+    # (A4) every Values array / values_default of VectorsC (strings that
+    #      differ only in lexical case), each on the next enumerated array of
+    #      its length (or without ValueMap)
+    bylen = {}
+    for am in amaps2:
+        if not any(e["k"] == "BAD" for e in am):
+            bylen.setdefault(len(am), []).append(am)
+    for idx, pat in enumerate(casepats):
+        fam = case_family(rng)
+        vals = [fam[x] for x in pat["vals"]]
+        d = fam[pat["dflt"]] if pat["hasdflt"] else None
+        tn = ("uint8", "sint8", rng.choice(H.TYPE_NAMES))[idx % 3]
+        if pat["hasmap"] and pat["n"] > 0:
+            pool = bylen[pat["n"]]
+            ents = H.concretize_abstract(pool[(idx * 7) % len(pool)], tn, rng)
+        else:
+            ents = []
+        c = H.build_case(tn, ents, bool(pat["hasmap"]), vals, d, rng)
+        c["queries"] = [fam["aB"], fam["Cd"]]
+        c["origin"] = "tlc-enum-case-variants"
+        cases.append(c)
     # (B) longer arrays simulated by TLC
     for am in amaps_sim:
         tn = rng.choice(H.TYPE_NAMES)
         ents = H.concretize_abstract(am, tn, rng)
-        cases.append(with_empty(case_from_ents(
+        cases.append(with_casevariants(with_empty(case_from_ents(
             ents, tn, rng, mismatch=rng.random() < 0.3,
-            dup=rng.random() < 0.15, origin="tlc-sim"), rng))
+            dup=rng.random() < 0.15, origin="tlc-sim"), rng), rng))
     # (C) seeded random arrays from the concrete grammar
     for _ in range(500 if quick else 8000):
         tn = rng.choice(H.TYPE_NAMES)
         ents = H.random_map(tn, rng)
-        cases.append(with_empty(case_from_ents(
+        cases.append(with_casevariants(with_empty(case_from_ents(
             ents, tn, rng, mismatch=rng.random() < 0.25,
-            dup=rng.random() < 0.15, origin="random"), rng))
+            dup=rng.random() < 0.15, origin="random"), rng), rng))
     # (D) no ValueMap / no Values
     for _ in range(60 if quick else 400):
         tn = rng.choice(H.TYPE_NAMES)
@@ -204,7 +303,7 @@ def gen_cases(ctx, amaps2, amaps_sim, amaps_u):
         d = rng.choice([None, "dflt"])
         c = H.build_case(tn, [], False, vals, d, rng)
         c["origin"] = "no-ValueMap"
-        cases.append(c)
+        cases.append(with_casevariants(c, rng))
     for _ in range(20 if quick else 100):
         tn = rng.choice(H.TYPE_NAMES)
         ents = H.random_map(tn, rng, maxlen=3)
@@ -377,6 +476,19 @@ def run(ctx):
             "values_default is the empty string, all arrays <= 2 (%s "
             "alphabet) x Values of 0..n+1 strings x position of the empty "
             "string" % ("reduced" if quick else "full"))
+    ctx.tlc("ValueMapImpl",
+            "ValueMapImplLex.cfg" if quick else "ValueMapImplLexBig.cfg",
+            label="code-shaped machine = Claims with malformed entries of "
+            "every lexeme class (Unicode digits, trailing line feed, blanks, "
+            "'_') in every shape, all arrays <= %d (reduced alphabet)%s" %
+            ((2, "; and for every Values array of n-1..n+1 strings over case "
+              "variants of one word (ImplEqualsClaimsC)") if quick
+             else (3, "")))
+    if not quick:
+        ctx.tlc("ValueMapImpl", "ValueMapImplLex.cfg",
+                label="code-shaped machine = Claims for every Values array of "
+                "n-1..n+1 strings over case variants of one word "
+                "(ImplEqualsClaimsC), all arrays <= 2")
     ctx.tlc("ValueMapHistImpl",
             "ValueMapHistImpl.cfg" if quick else "ValueMapHistImplBig.cfg",
             label="histories of creations from one class object (copying "
@@ -386,6 +498,8 @@ def run(ctx):
     ctx.exhaustive = True
     sens = []
     for cfg, what in LEGACY:
+        if quick and cfg in THOROUGH_ONLY:
+            continue
         inv = LEGACY_INV.get(cfg, "ImplEqualsClaims")
         r = ctx.tlc("ValueMapImpl", cfg, must_pass=False, count=False,
                     label="regression config (must fail): " + what)
@@ -427,6 +541,18 @@ def run(ctx):
         raise vlib.MachineryError("expected >= 80 arrays with an open end "
                                   "next to '..' from TLC, got %d"
                                   % len(amaps_u))
+    r = ctx.tlc("ValueMapImpl", "ValueMapImplGenLex.cfg", workers=1,
+                count=False,
+                label="enumerate all arrays of length <= 2 (reduced alphabet) "
+                "with a malformed entry of a lexeme class, and the Values "
+                "arrays over case variants (VectorsC) (vector source)")
+    amaps_lex = [json.loads(v[1]) for v in r.printed("VECL")]
+    casepats = [json.loads(v[1]) for v in r.printed("VECC")]
+    if len(amaps_lex) < 500 or len(casepats) < 300:
+        raise vlib.MachineryError(
+            "expected >= 500 arrays with a lexeme-class entry and >= 300 "
+            "case-variant Values arrays from TLC, got %d / %d"
+            % (len(amaps_lex), len(casepats)))
     nsim = 400 if quick else 6000
     _, sims = ctx.simulate_behaviours("ValueMapImpl", "ValueMapImplSim.cfg",
                                       nsim, 6, var="map",
@@ -445,7 +571,7 @@ def run(ctx):
 
     # ---- (3) real code -----------------------------------------------------
     t1 = time.time()
-    cases = gen_cases(ctx, amaps2, amaps_sim, amaps_u)
+    cases = gen_cases(ctx, amaps2, amaps_sim, amaps_u, amaps_lex, casepats)
     repo = H.Repo()
     events, infos = [], []
     for c in cases:
@@ -619,13 +745,20 @@ def run(ctx):
         "random points" % by_origin.get("16bit-exhaustive", 0),
         "entries outside the type's range, Values that are not strings and "
         "non-integer element types are not generated",
-        "tobinary()/items() are only pinned down for Values strings occurring "
-        "once; for duplicates any entry carrying the string is accepted",
+        "tobinary() is only pinned down for Values strings occurring once (for "
+        "duplicates any entry carrying the string is accepted); items() must "
+        "list every entry, also those with a repeated Values string; Values "
+        "strings differing only in lexical case are different strings",
         "histories: 2 value-mapped elements per class, <= 3 creations "
         "(simulated) / <= 2 resp. 4 (model-checked); the class object is "
         "compared by the ValueMap / Values qualifier values of its elements",
-        "ValueMapImplOps models BAD entries abstractly (one class); texts used: "
-        "%d variants" % len(H.BAD_TEXTS),
+        "malformed entries are modelled by lexeme class (BadClasses: junk = %d "
+        "fixed texts; Unicode decimal digits of %d scripts; trailing line "
+        "feed; leading / trailing blanks; '_' digit groups), each class in the "
+        "shapes single / closed range / open low / open high end; other "
+        "malformed texts (control characters inside, signs from other "
+        "scripts, ..) are not generated" % (len(H.BAD_TEXTS),
+                                             len(H.UDIGIT_ZEROS)),
     ]
 
 
